@@ -86,6 +86,17 @@ CHECKS = {
         design_ref="DESIGN.md 5 C19",
         note=NOTE_COMMON + " Member identities are interned values (positions rounded to 1e-5, values+weights, seeds, array fill ids + axis values).",
     ),
+    "C36": dict(
+        text=("TLC enumerates DistImpl (np.linspace grids of uniform()/gaussian() incl. the single-sample case, every divide "
+              "chunking) over a 6-point rational lattice x 3 sigmas x 2 limits x n <= 5 (thorough 7) and checks spacing, symmetry "
+              "and truncation on the model's grids; every case runs on abtem.distributions (1-D/2-D gaussians, both "
+              "normalisations, negation of each, divide eager/lazy) and DistTrace.tla decides exact rational spacing, symmetry, "
+              "limits, negation and partition; the Gaussian profile and the unit norm/sum are logged as deviations against an "
+              "independent evaluation and bounded by the spec."),
+        technique="TLA+ model of the value grids (TLC) + TLC-enumerated cases executed on the real code + TLC trace validation over exact rationals",
+        design_ref="DESIGN.md 5 C36",
+        note=NOTE_COMMON + " exp() is evaluated by numpy in the harness (profile/norm deviations, tolerance 2e-6).",
+    ),
 }
 
 NOT_APPLICABLE = {
